@@ -1,15 +1,210 @@
 """Which bounded instances of the specification TLC checks per property, which TLC-generated
 behaviours are replayed in the library, and the (non-alarming) strict conformance pass."""
+import json, os, random, re, shutil, subprocess, time
 from vlib import *
+
+ALL_INV = ["TypeOK", "P_OrderedCollect", "P_Permutation", "P_Count", "P_FirstMatch", "P_Sequential",
+           "P_AtMostOnce", "P_ExactlyOnce", "P_BuffersSorted", "P_ThreadBound", "P_BoundedAfterSkip",
+           "P_ExactPulls", "P_DisjointPulls"]
+
+
+def cfg_text(spec, consts, invs=(), props=(), extra=""):
+    lines = [f"SPECIFICATION {spec}", "CONSTANTS"]
+    for k, v in consts.items():
+        lines.append(f"  {k} {v}")
+    for i in invs:
+        lines.append(f"INVARIANT {i}")
+    for p in props:
+        lines.append(f"PROPERTY {p}")
+    lines.append("CHECK_DEADLOCK FALSE")
+    if extra:
+        lines.append(extra)
+    return "\n".join(lines) + "\n"
+
+
+def S(xs):
+    return "= {" + ", ".join(json.dumps(x) if isinstance(x, str) else str(x) for x in xs) + "}"
+
+
+def parrun_consts(NN=4, MaxW=3, srcs=("vec", "iterx"), terms=("collect_vec",), nts=(2, 3), css="Cs_1_2", fans="Fans_012"):
+    return {"MaxW": f"= {MaxW}", "Avail": "= 16", "NN": f"= {NN}", "Srcs": S(srcs), "Terms": S(terms),
+            "Nts": S(nts), "Css": f"<- {css}", "Fans": f"<- {fans}"}
+
+
+# per property: list of (name, module, consts, invariants, temporal properties)
+def plan(prop, tier):
+    q = tier == "quick"
+    NN = 4 if q else 5
+    W = 3 if q else 4
+    nts = (2, 3) if q else (2, 3, 4)
+    P = []
+
+    def par(name, terms, invs, fans="Fans_012", css="Cs_1_2", srcs=("vec", "iterx"), nts_=None, NN_=None, live=True, W_=None):
+        P.append((name, "MC_ParRun.tla",
+                  parrun_consts(NN_ or NN, W_ or W, srcs, terms, nts_ or nts, css, fans),
+                  ["TypeOK"] + invs, ["P_Terminates"] if live else []))
+
+    if prop == "C01":
+        par("collect(bag+merge)", ("collect_vec",), ["P_OrderedCollect", "P_BuffersSorted", "P_AtMostOnce", "P_ExactlyOnce", "P_DisjointPulls"])
+    elif prop == "C02":
+        par("find", ("find",), ["P_FirstMatch", "P_AtMostOnce", "P_BoundedAfterSkip"], fans="Fans_find", srcs=("vec", "iter", "iterx"))
+    elif prop == "C03":
+        par("reduce(free monoid)", ("reduce",), ["P_Permutation", "P_AtMostOnce", "P_ExactlyOnce"])
+    elif prop == "C04":
+        par("count", ("count", "for_each"), ["P_Count", "P_AtMostOnce", "P_ExactlyOnce"])
+    elif prop == "C05":
+        par("all kernels", ("collect_vec", "collect_x", "count", "reduce", "find"), ["P_AtMostOnce", "P_ExactlyOnce", "P_DisjointPulls"],
+            NN_=(3 if q else 4), fans="Fans_find")
+        P.append(("turnstile of by-value iterator sources", "MC_Source.tla", source_consts(q), ["TypeOK", "MutualExclusion", "EachOnce", "InOrder", "NothingAfterComplete"], ["Quiesces"]))
+    elif prop == "C06":
+        par("collect(bag+merge)", ("collect_vec",), ["P_OrderedCollect", "P_BuffersSorted"], css="Cs_all" if not q else "Cs_min_auto")
+        P.append(("collect_into targets", "MC_CollectInto.tla", {}, ["AppendsAfterPrefix"], []))
+    elif prop == "C07":
+        par("collect_x", ("collect_x",), ["P_Permutation", "P_AtMostOnce", "P_ExactlyOnce"])
+    elif prop == "C08":
+        par("thread bound", ("collect_vec", "find", "count"), ["P_ThreadBound", "P_Sequential"], nts_=(1, 2, 3) if q else (1, 2, 3, 4), NN_=(3 if q else 4), fans="Fans_find", css="Cs_1_2")
+        par("thread bound, more threads than a lag period", ("count",), ["P_ThreadBound"], nts_=(6,), NN_=6, W_=6, fans="Fans_1", css="Cs_1_2", srcs=("vec",), live=False)
+    elif prop == "C09":
+        par("sequential", ("collect_vec", "collect_x", "count", "reduce", "find"), ["P_Sequential"], nts_=(1,), fans="Fans_find", css="Cs_all")
+    elif prop == "C10":
+        par("find: early exit", ("find",), ["P_BoundedAfterSkip", "P_FirstMatch"], fans="Fans_find", srcs=("vec", "iter", "iterx"), css="Cs_1_2_3" if not q else "Cs_1_2", NN_=(5 if q else 6))
+    elif prop == "C11":
+        par("exact chunks", ("collect_vec", "count", "find"), ["P_ExactPulls", "P_DisjointPulls"], css="Cs_1_2_3", fans="Fans_find", srcs=("vec", "iter", "iterx"), NN_=(4 if q else 5))
+        par("exact chunks across lag periods", ("count",), ["P_ExactPulls", "P_DisjointPulls", "P_ThreadBound"], nts_=(6,), NN_=7, W_=6, fans="Fans_1", css="Cs_1_2", srcs=("vec",), live=False)
+    elif prop == "C12":
+        P.append(("builder state machine", "MC_ParApi.tla", {"Depth": "= 4" if not q else "= 3"}, ["TypeOK", "ParamsAreLastSet", "SequentialIffMax1"], []))
+    elif prop == "C13":
+        P.append(("ownership tokens, no panic", "MC_Tokens.tla", tokens_consts(q, False), ["TypeOK", "NoDoubleDrop", "NoBadDrop", "NoLeakAtEnd"], []))
+    elif prop == "C14":
+        P.append(("ownership tokens with a panicking closure", "MC_Tokens.tla", tokens_consts(q, True), ["TypeOK", "NoDoubleDrop", "NoBadDrop", "PanicPropagates"], ["Finishes"]))
+    elif prop == "C15":
+        P.append(("runner settings arithmetic", "MC_Settings.tla", {"MaxLen": "= 40" if q else "= 72", "MaxT": "= 17"}, ["ChunkPositive", "ThreadsPositive", "NextChunkSane", "MinChunkCoversInput"], []))
+        par("min/auto chunks", ("collect_vec", "count", "find"), ["P_OrderedCollect", "P_Count", "P_FirstMatch", "P_ExactlyOnce"], css="Cs_all", fans="Fans_find", NN_=(4 if q else 5))
+    elif prop == "C16":
+        P.append(("builder state machine", "MC_ParApi.tla", {"Depth": "= 4" if not q else "= 3"}, ["TypeOK", "LazyExceptKnownSites", "TerminalUnderCurrentParams"], []))
+    return P
+
+
+def source_consts(q):
+    return {"NT": "= 3", "NE": "= 4" if q else "= 5", "Chunks": "= {1, 2}"}
+
+
+def tokens_consts(q, panic):
+    return {"NE": "= 3" if q else "= 4", "NW": "= 2", "C": "= {1, 2}", "Panic": "= TRUE" if panic else "= FALSE"}
 
 
 def model_check_for(prop, tier, work):
-    return []
+    res = []
+    for (name, module, consts, invs, props) in plan(prop, tier):
+        if not os.path.exists(os.path.join(SPEC, module)):
+            log(f"  (specification module {module} not present yet: skipped)")
+            continue
+        spec = "Spec"
+        cfgp = os.path.join(work, f"mc-{len(res)}.cfg")
+        with open(cfgp, "w") as f:
+            f.write(cfg_text(spec, consts, invs, props))
+        r = model_check(module, cfgp, work, workers=8, timeout=(900 if tier == "quick" else 7200))
+        r["name"] = f"{module}: {name}"
+        r["bounds"] = consts
+        r["invariants"] = invs + props
+        res.append(r)
+    return res
+
+
+# ------------------------------------------------------------------ spec -> impl
+
+GEN_FAMILIES = {
+    # property: list of (terms, srcs, nts, css, fans, NN, MaxW, tables)
+    "C01": [(("collect_vec",), ("vec",), (3,), "Cs_2", "Fans_012", 4, 3), (("collect_vec",), ("iterx",), (2,), "Cs_1_2", "Fans_012", 3, 2)],
+    "C02": [(("find",), ("vec",), (3,), "Cs_2", "Fans_find", 4, 3), (("find",), ("iterx", "iter"), (2,), "Cs_1_2", "Fans_find", 3, 2)],
+    "C03": [(("reduce",), ("vec",), (3,), "Cs_2", "Fans_012", 4, 3), (("reduce",), ("iterx",), (2,), "Cs_1_2", "Fans_012", 3, 2)],
+    "C04": [(("count", "for_each"), ("vec",), (3,), "Cs_2", "Fans_012", 4, 3), (("count",), ("iterx",), (2,), "Cs_1_2", "Fans_012", 3, 2)],
+    "C05": [(("collect_vec", "count", "find"), ("iterx", "vec"), (2, 3), "Cs_1_2", "Fans_find", 3, 3)],
+    "C06": [(("collect_vec",), ("vec", "iterx"), (2,), "Cs_1_2", "Fans_012", 3, 2)],
+    "C07": [(("collect_x",), ("vec",), (3,), "Cs_2", "Fans_012", 4, 3), (("collect_x",), ("iterx",), (2,), "Cs_1_2", "Fans_012", 3, 2)],
+    "C08": [(("count", "find"), ("vec",), (2, 3), "Cs_1_2", "Fans_find", 4, 3)],
+    "C10": [(("find",), ("vec", "iterx"), (2, 3), "Cs_1_2", "Fans_find", 4, 3)],
+    "C11": [(("collect_vec", "count"), ("vec", "iterx"), (3,), "Cs_1_2_3", "Fans_012", 4, 3)],
+    "C13": [(("collect_vec", "find"), ("vec",), (2, 3), "Cs_1_2", "Fans_find", 3, 3)],
+    "C15": [(("collect_vec", "count"), ("vec",), (2, 3), "Cs_min_auto", "Fans_012", 4, 3)],
+}
+
+GEN_RE = re.compile(r'^<<"GEN", (".*")>>$')
 
 
 def generated_jobs(prop, tier, seed, work):
-    return [], {"generated_schedules": 0}
+    """Runs TLC on Gen_ParRun in simulation mode (seeded) over the property's program families
+    and turns each complete behaviour into a replay job."""
+    fams = GEN_FAMILIES.get(prop, [])
+    want = 300 if tier == "quick" else 4000
+    jobs, stats = [], {"generated_schedules": 0, "distinct_schedules": 0, "tlc_s": 0.0}
+    seen = set()
+    t0 = time.time()
+    for fi, (terms, srcs, nts, css, fans, NN, W) in enumerate(fams):
+        cfgp = os.path.join(work, f"gen-{fi}.cfg")
+        with open(cfgp, "w") as f:
+            f.write(cfg_text("GSpec", parrun_consts(NN, W, srcs, terms, nts, css, fans), ["Emit"]))
+        num = (want // len(fams)) * 3
+        rc, out, dt = tlc("Gen_ParRun.tla", cfgp, work, workers=1, timeout=900,
+                          extra=["-simulate", f"num={num}", "-depth", "200", "-seed", str(seed)], deque=False)
+        for line in out.splitlines():
+            mm = GEN_RE.match(line.strip())
+            if not mm:
+                continue
+            d = json.loads(json.loads(mm.group(1)))
+            stats["generated_schedules"] += 1
+            key = json.dumps(d, sort_keys=True)
+            if key in seen:
+                continue
+            seen.add(key)
+            p = norm(d["p"])
+            jobs.append({"id": len(jobs) + 1, "mode": "replay", "seed": seed, "sticky": 0.0, "sched": d["sched"],
+                         "logcalls": 1, "spin": 0, "timeout_ms": 60000, "track": 1, "p": p})
+    rng = random.Random(seed)
+    rng.shuffle(jobs)
+    jobs = jobs[:want]
+    for i, j in enumerate(jobs):
+        j["id"] = i + 1
+    stats["distinct_schedules"] = len(jobs)
+    stats["tlc_s"] = round(time.time() - t0, 2)
+    return jobs, stats
 
+
+# ------------------------------------------------------------------ strict conformance (never an alarm)
 
 def conformance(prop, tier, traces, work):
-    return {"conformance": "not run"}
+    conf, rej, samples = set(), [], []
+    t0 = time.time()
+    cfgp = os.path.join(SPEC, "TraceFull.cfg")
+    running, pending = [], [t for t in traces if os.path.getsize(t) > 0]
+    outs = []
+    while pending or running:
+        while pending and len(running) < 8:
+            tf = pending.pop()
+            pr, meta = tlc_start("TraceFull.tla", cfgp, work, env={"TRACE": tf})
+            running.append((pr, meta, tf))
+        pr, meta, tf = running.pop(0)
+        try:
+            out, _ = pr.communicate(timeout=1200)
+        except subprocess.TimeoutExpired:
+            pr.kill()
+            out = ""
+        shutil.rmtree(meta, ignore_errors=True)
+        outs.append((tf, out))
+    consumed = 0
+    for tf, out in outs:
+        for line in out.splitlines():
+            line = line.strip()
+            mm = re.match(r'^<<"CONFORMS", (\d+)>>$', line)
+            if mm:
+                conf.add((tf, int(mm.group(1))))
+            mm = re.match(r'^<<"REJECT", (\d+), (\d+), "(\w+)">>$', line)
+            if mm:
+                rej.append({"run": int(mm.group(1)), "line": int(mm.group(2)), "event": mm.group(3)})
+            if line.startswith('<<"FULL-CONSUMED"'):
+                consumed += 1
+    rej_u = {(r["run"], r["line"]): r for r in rej}
+    return {"strict_conformance": {"runs_accepted_by_ParRun": len(conf), "runs_rejected": len(rej_u),
+                                   "first_rejections": list(rej_u.values())[:5], "files_consumed": consumed,
+                                   "files": len(outs), "wall_s": round(time.time() - t0, 2),
+                                   "note": "applies to scheduled (linearised) runs of programs without eager sites; a rejection is spec-maintenance information, never a verdict"}}
